@@ -195,6 +195,16 @@ def derive_step(meta, g):
         st["means"] = [[v * sc for v in g.vec(n)] for _ in range(k)]
         st["y"] = [v * sc for v in g.vec(meta["m"])]
         st["fail"] = r.choice([0] * 8 + [1, 2, 3, 4])
+        st["chg"] = False
+        if meta["variant"] == 1 and meta["online"] and r.random() < 0.5:
+            # the noise input changes size from this step on (what update_weights_online exists for)
+            m_ = meta["m"]
+            nz = m_ + r.choice([0, 1, 2])
+            R = U.scale_cov(g.spd(nz, cond=10 ** r.uniform(0, 3)), [sc] * nz)
+            d = r.choice([1.0, 0.5, 2.0])
+            D = [[(d if i == j else 0.0) + (g.dyadic(-1, 1, 3) * 0.25 if r.random() < 0.5 else 0.0) for j in range(nz)] for i in range(m_)]
+            Df, Rf = U.fmat(D), U.fmat(R)
+            st.update({"chg": True, "nz": nz, "R": R, "D": D, "Reff": round_mat(vlib.mmul(vlib.mmul(Df, Rf), vlib.mT(Df)))})
     return st
 
 
@@ -227,7 +237,12 @@ def seq_line(steps):
             h += U.cm_tokens(m0["R"])
         h += [str(len(steps))]
         for st in steps:
-            h += [str(st["fail"]), str(st["k"])] + [hexd(x) for x in st["y"]] + bel(st)
+            h += [str(st["fail"]), str(st["k"])]
+            if st.get("chg"):
+                h += ["1", str(st["nz"])] + U.cm_tokens(st["D"]) + U.cm_tokens(st["R"]) + U.cm_tokens(st["Reff"])
+            else:
+                h += ["0"]
+            h += [hexd(x) for x in st["y"]] + bel(st)
     return " ".join(h)
 
 
@@ -584,9 +599,9 @@ def run(ctx):
     objects = []
     for mk in [ukfp_case] * NP + [ukfc_case] * NC:
         st = [mk(g, ctx.tier)]
-        if g.r.random() < 0.4:
+        if g.r.random() < (0.85 if st[0].get("online") else 0.4):
             for _ in range(g.r.choice([1, 2, 3])):
-                st.append(derive_step(st[0], g))
+                st.append(derive_step(st[-1], g))
         objects.append(st)
     import json
     ncorpus = 0
@@ -620,6 +635,9 @@ def run(ctx):
             hout.append(ho)
             snaps.append(sn)
         hist["steps-per-object=%d" % len(st)] = hist.get("steps-per-object=%d" % len(st), 0) + 1
+        nchg = sum(1 for m_ in st if m_.get("chg"))
+        if nchg:
+            hist["online-weights:noise-dimension-changed-between-steps"] = hist.get("online-weights:noise-dimension-changed-between-steps", 0) + nchg
     first, dl, dmap = [], [], {}
     for ci, (meta, h) in enumerate(zip(metas, hout)):
         if meta["op"] == "ukfp":
